@@ -1322,6 +1322,101 @@ Proof.
   unfold dec_level. rewrite bind_modify. stsimpl. unfold ret, NS. cbn [Z.sub Z.add Z.opp Z.pos_sub Pos.pred_double].
   reflexivity.
 Qed.
+
+(* ================================================================ cv- and ref-qualified member functions: N [V] [K] [R | O] ... E *)
+Definition qual_okb (q : Z) : bool := (q =? 86) || (q =? 75) || (q =? 82) || (q =? 79).   (* V K R O *)
+
+Lemma nested_quals : forall quals k p o lv fnm rest,
+  At p (quals ++ rest) -> forallb qual_okb quals = true -> rest <> [] ->
+  run true s 0 (List.length quals + k) (LNested 0) (NS p o lv fnm) =
+  run true s 0 k (LNested 0) (NS (p + Z.of_nat (List.length quals)) o lv fnm).
+Proof.
+  induction quals as [| q qs IH]; intros k p o lv fnm rest H Hq Hr.
+  - cbn [List.length Nat.add]. replace (p + Z.of_nat 0) with p by lia. reflexivity.
+  - cbn [forallb] in Hq. apply andb_prop in Hq. destruct Hq as [Hq Hqs]. cbn [app] in H.
+    cbn [List.length Nat.add]. cbn [run body]. unfold nested_loop. unfold NS at 1.
+    assert (Hc : q = 86 \/ q = 75 \/ q = 82 \/ q = 79) by (unfold qual_okb in Hq; lia).
+    erewrite bind_R; [| apply (curr_at _ (q :: qs ++ rest)); [ exact H | reflexivity ] ].
+    pose proof (At_lt _ _ _ H) as Hlt.
+    rewrite bind_eof. stsimpl. rwf (p >=? L). cbn [hd0]. chs.
+    rwf (q =? 69). cbn [Z.eqb orb negb].
+    erewrite bind_R; [| apply (peek1_at _ q (qs ++ rest)); [ exact H | reflexivity ] ].
+    rwf (q =? 68). rwf (q =? 67). cbn [andb orb]. rwf (q =? 85). unfold islower, isdigit.
+    rwf (97 <=? q). rwf (q <=? 57). rewrite !andb_false_r. cbn [andb orb].
+    rwf (q =? 84). rwf (q =? 73). rwf (q =? 83). rwf (q =? 77). rwf (q =? 76).
+    assert (Hs : strchr_set (str "rVKRO") q = true) by (destruct Hc as [-> | [-> | [-> | ->]]]; reflexivity).
+    rewrite Hs.
+    (* dd_qualifier *)
+    assert (Hdq : dd_qualifier s 0 (NS p o lv fnm) = R 0 (NS (p + 1) o lv fnm)).
+    { unfold dd_qualifier. unfold NS at 1.
+      erewrite bind_R; [| apply (curr_at _ (q :: qs ++ rest)); [ exact H | reflexivity ] ].
+      rewrite bind_eof. stsimpl. rwf (p >=? L). cbn [hd0 Z.eqb]. rewrite Hs. unfold consume.
+      erewrite bind_R; [| apply (consume_n_at _ 1 (q :: qs ++ rest)); [ exact H | reflexivity | cbn [List.length]; lia ] ].
+      reflexivity. }
+    fold (NS p o lv fnm). erewrite bind_R; [| exact Hdq ].
+    rewrite (IH k (p + 1) o lv fnm rest (At_cons _ _ _ H) Hqs Hr).
+    f_equal. unfold NS. f_equal. lia.
+Qed.
+
+Lemma tqencoding_at : forall quals c cs l params F,
+  s = str "_ZN" ++ quals ++ tsrcs (c :: cs) ++ last_enc l ++ 69 :: params ->
+  forallb qual_okb quals = true ->
+  forallb tcomp_okb (c :: cs) = true -> last_okb l = true -> forallb is_builtin params = true ->
+  no_dollar (tsrcs (c :: cs) ++ last_enc l ++ 69 :: params) -> L <= INT_MAX ->
+  (List.length quals + tcosts (c :: cs) + List.length params + 10 <= F)%nat ->
+  run true s 0 F FEncoding (st0 L) = R 0 (NS L (Some (last_out (join_sep (map fst (c :: cs))) l)) 0 false).
+Proof.
+  intros quals c cs l params F Hs Hq Hok Hl Hpar Hnd HL HF.
+  set (comps := c :: cs) in *.
+  set (body := quals ++ tsrcs comps ++ last_enc l ++ 69 :: params) in *.
+  assert (H0 : At 0 (95 :: 90 :: 78 :: body)).
+  { unfold At. split; [ lia |]. split; [ unfold suffix; cbn [Z.add Z.to_nat skipn]; rewrite Hs; reflexivity |].
+    unfold flen. rewrite Hs. cbn [str app List.length]. lia. }
+  pose proof (At_cons _ _ _ H0) as H1. pose proof (At_cons _ _ _ H1) as H2. cbn [Z.add Pos.add] in H1, H2.
+  destruct F as [| F1]; [ lia |]. destruct F1 as [| F2]; [ lia |]. destruct F2 as [| F3]; [ lia |].
+  set (pq := 3 + Z.of_nat (List.length quals)).
+  set (pe := pq + Z.of_nat (List.length (tsrcs comps)) + Z.of_nat (List.length (last_enc l)) + 1).
+  pose proof (At_cons _ _ _ H2) as H3. cbn [Z.add Pos.add] in H3.
+  assert (Hpq : At pq (tsrcs comps ++ last_enc l ++ 69 :: params)) by (apply (At_app _ quals); exact H3).
+  assert (Hpe : At pe params).
+  { unfold pe. replace (pq + Z.of_nat (List.length (tsrcs comps)) + Z.of_nat (List.length (last_enc l)) + 1)
+      with (pq + Z.of_nat (List.length (tsrcs comps)) + Z.of_nat (List.length (last_enc l)) + Z.of_nat (List.length [69])) by (cbn [List.length]; lia).
+    apply (At_app _ [69] params). apply (At_app _ (last_enc l)). apply (At_app _ (tsrcs comps)). exact Hpq. }
+  apply (encoding_generic 78 body (last_out (join_sep (map fst comps)) l) pe params F3 H0); try lia; try assumption.
+  change (run true s 0 (S (S F3)) FName) with (dd_name true s 0 (run true s 0 (S F3))).
+  unfold dd_name. unfold NS at 1.
+  erewrite bind_R; [| apply (curr_at _ (78 :: body)); [ exact H2 | reflexivity ] ].
+  pose proof (At_lt _ _ _ H2).
+  rewrite bind_eof. stsimpl. rwf (2 >=? L). cbn [hd0]. chs. cbn [Z.eqb Pos.eqb].
+  change (run true s 0 (S F3) FNestedName) with (dd_nested_name s 0 (run true s 0 F3)).
+  unfold dd_nested_name.
+  rewrite bind_eof. stsimpl. rwf (2 >=? L). cbn [Z.eqb].
+  unfold expect at 1. unfold consume.
+  erewrite bind_R; [| apply (consume_n_at _ 1 (78 :: body)); [ exact H2 | reflexivity | cbn [List.length]; lia ] ].
+  cbn [hd0]. chs. cbn [Z.eqb Pos.eqb]. stsimpl.
+  unfold inc_level. rewrite bind_modify. stsimpl. cbn [Z.add Pos.add].
+  fold (NS 3 None 2 true).
+  erewrite bind_R.
+  2:{ replace F3 with (List.length quals + (F3 - List.length quals))%nat by lia.
+      rewrite (nested_quals quals _ 3 None 2 true (tsrcs comps ++ last_enc l ++ 69 :: params)); [| exact H3 | exact Hq |].
+      - fold pq.
+        apply (nested_tcomps comps l _ pq None 2 true params (join_sep (map fst comps))); try assumption.
+        + unfold comps. cbn [map]. apply out_after_start.
+        + reflexivity.
+        + lia.
+      - unfold comps, tsrcs. cbn [map List.concat]. unfold tenc at 1. unfold src.
+        destruct (hd0_dec_digit _ (fst c ++ targs_enc (snd c)) (ident_len (fst c) ltac:(
+          cbn [forallb] in Hok; apply andb_prop in Hok; destruct Hok as [Hc _]; unfold tcomp_okb in Hc;
+          apply andb_prop in Hc; tauto))) as [_ Hne].
+        destruct (dec (Z.of_nat (List.length (fst c)))); [ contradiction | discriminate ]. }
+  assert (H4 : At (pq + Z.of_nat (List.length (tsrcs comps)) + Z.of_nat (List.length (last_enc l))) (69 :: params)).
+  { apply (At_app _ (last_enc l)). apply (At_app _ (tsrcs comps)). exact Hpq. }
+  unfold expect. unfold consume. unfold NS at 1.
+  erewrite bind_R; [| apply (consume_n_at _ 1 (69 :: params)); [ exact H4 | reflexivity | cbn [List.length]; lia ] ].
+  cbn [hd0]. chs. cbn [Z.eqb Pos.eqb]. stsimpl.
+  unfold dec_level. rewrite bind_modify. stsimpl. unfold ret, NS. cbn [Z.sub Z.add Z.opp Z.pos_sub Pos.pred_double].
+  reflexivity.
+Qed.
 End Walk.
 
 (* ================================================================ the formal mangler and the theorem *)
@@ -1644,4 +1739,54 @@ Example roundtrip_examples3 :
   tdecl_okb td_ctor = true /\ tmangle td_ctor = str "_ZN2v88internal12ScopedVectorIcEC1Ei" /\
   simple_name (erase td_ctor) = str "v8::internal::ScopedVector::ScopedVector" /\
   tdecl_okb td_fn = true /\ tmangle td_fn = str "_ZN2ns2tfIilEEii" /\ simple_name (erase td_fn) = str "ns::tf".
+Proof. vm_compute. repeat split; reflexivity. Qed.
+
+(* ================================================================ cv / ref-qualified member functions *)
+(* _Z N [V] [K] [R | O] (<source-name> [I <builtin type>+ E])+ [C<n> | D<n> | <operator code>] E <builtin type>*
+   e.g. _ZNO5store3Buf4takeEv  =  int store::Buf::take() &&  *)
+Definition qmangle (quals : list Z) (d : tdecl) : list Z :=
+  str "_ZN" ++ quals ++ tsrcs (tscopes d) ++ last_enc (t_last d) ++ 69 :: t_params d.
+Definition qdecl_okb (quals : list Z) (d : tdecl) : bool :=
+  forallb qual_okb quals && forallb tcomp_okb (tscopes d) && last_okb (t_last d) && forallb is_builtin (t_params d)
+  && (Z.of_nat (List.length (qmangle quals d)) <=? INT_MAX).
+
+Theorem roundtrip_qualified : forall quals d, qdecl_okb quals d = true ->
+  demangle (qmangle quals d) = Str (simple_name (erase d)).
+Proof.
+  intros quals d H. unfold qdecl_okb in H.
+  apply andb_prop in H. destruct H as [H HL]. apply andb_prop in H. destruct H as [H Hpar].
+  apply andb_prop in H. destruct H as [H Hl]. apply andb_prop in H. destruct H as [Hq Hok].
+  set (s := qmangle quals d) in *.
+  assert (Hs : s = str "_ZN" ++ quals ++ tsrcs (t_first d :: t_rest d) ++ last_enc (t_last d) ++ 69 :: t_params d) by reflexivity.
+  assert (Hnd : no_dollar (tsrcs (t_first d :: t_rest d) ++ last_enc (t_last d) ++ 69 :: t_params d)).
+  { apply Forall_app. split; [ apply no_dollar_tsrcs; exact Hok |].
+    apply Forall_app. split; [ apply no_dollar_last; exact Hl |].
+    constructor; [ lia | apply no_dollar_params; exact Hpar ]. }
+  assert (HLs : flen s <= INT_MAX) by (unfold flen; apply Z.leb_le; exact HL).
+  assert (Hfuel : (List.length quals + tcosts (t_first d :: t_rest d) + List.length (t_params d) + 10 <= fuel_of s)%nat).
+  { unfold fuel_of. rewrite Hs. cbn [str]. repeat rewrite app_length. cbn [List.length].
+    pose proof (tcosts_bound _ Hok). unfold tscopes in *. lia. }
+  assert (Hids : Forall (fun id => ident_okb id = true) (map fst (t_first d :: t_rest d))).
+  { apply Forall_forall. intros x Hx. apply in_map_iff in Hx. destruct Hx as [c [Hc1 Hc2]]. subst x.
+    unfold tscopes in Hok. rewrite forallb_forall in Hok. specialize (Hok c Hc2).
+    unfold tcomp_okb in Hok. apply andb_prop in Hok. tauto. }
+  assert (Hpre : prefix_of prefix_str s = false).
+  { rewrite Hs. reflexivity. }
+  replace (simple_name (erase d)) with (last_out (join_sep (map fst (t_first d :: t_rest d))) (t_last d)).
+  - apply demangle_of_encoding.
+    + exact Hpre.
+    + unfold mangled_form, stripped. rewrite Hpre. rewrite Hs. reflexivity.
+    + apply (tqencoding_at s quals (t_first d) (t_rest d) (t_last d) (t_params d) (fuel_of s) Hs Hq Hok Hl Hpar Hnd HLs Hfuel).
+  - cbn [map] in *. rewrite (last_out_eq _ _ _ Hids Hl). unfold simple_name, erase, scopes. cbn [d_first d_rest d_last].
+    reflexivity.
+Qed.
+
+Definition td_take : tdecl := mktdecl (str "store", []) [(str "Buf", []); (str "take", [])] LPlain (str "v").
+Definition td_qop : tdecl := mktdecl (str "store", []) [(str "Buf", str "i")] (LOp (ch "p") (ch "l")) (str "i").
+Example roundtrip_examples4 :
+  qdecl_okb (str "O") td_take = true /\ qmangle (str "O") td_take = str "_ZNO5store3Buf4takeEv" /\
+  simple_name (erase td_take) = str "store::Buf::take" /\
+  qdecl_okb (str "KR") td_qop = true /\ qmangle (str "KR") td_qop = str "_ZNKR5store3BufIiEplEi" /\
+  simple_name (erase td_qop) = str "store::Buf::operator+" /\
+  qdecl_okb (str "r") td_take = false.
 Proof. vm_compute. repeat split; reflexivity. Qed.
